@@ -37,15 +37,20 @@ func (c13) Gen(r *rand.Rand, tier string, run int) *core.Case {
 	//   free:   subscribers share connections and signals, everything races
 	//   own:    every subscriber has its own connection (no shared registration)
 	//   phased: subscribe / emit / cancel / emit in phases separated by quiescence
-	switch k := r.IntN(10); {
+	//   sequential: one operation at a time (a barrier after each): nothing
+	//           overlaps, so no known finding can explain a violation there
+	switch k := r.IntN(12); {
 	case k < 5:
 		c.Batch = "free"
 	case k < 8:
 		c.Batch = "own"
 		conns = subs
-	default:
+	case k < 10:
 		c.Batch = "phased"
 		c.Params["phased"] = 1
+	default:
+		c.Batch = "sequential"
+		c.Params["sequential"] = 1
 	}
 	c.Params["subs"] = subs
 	c.Params["conns"] = conns
@@ -54,6 +59,29 @@ func (c13) Gen(r *rand.Rand, tier string, run int) *core.Case {
 		for i := 0; i < n; i++ {
 			c.Ops = append(c.Ops, core.Op{Kind: "emit", Actor: 50, X: int64(r.IntN(2)), Y: int64(r.IntN(4))})
 		}
+	}
+	if c.Batch == "sequential" {
+		c.Params["subs"] = subs
+		c.Params["conns"] = conns
+		c.Params["share_proxy"] = r.IntN(2)
+		active := map[int]bool{}
+		n := 6 + r.IntN(14)
+		for i := 0; i < n; i++ {
+			k := r.IntN(subs)
+			switch {
+			case !active[k] && r.IntN(3) != 0:
+				c.Ops = append(c.Ops, core.Op{Kind: "sub", Actor: k, X: int64(r.IntN(2)), Y: int64(r.IntN(conns))})
+				active[k] = true
+			case active[k] && r.IntN(2) == 0:
+				c.Ops = append(c.Ops, core.Op{Kind: "cancel", Actor: k})
+				active[k] = false
+			default:
+				c.Ops = append(c.Ops, core.Op{Kind: "emit", Actor: 50, X: int64(r.IntN(2))})
+			}
+			c.Ops = append(c.Ops, core.Op{Kind: "barrier"})
+		}
+		emit(2)
+		return c
 	}
 	if c.Batch == "phased" {
 		for k := 0; k < subs; k++ {
@@ -316,8 +344,13 @@ func (c13) Check(c *core.Case, env *core.Env, res zzsim.Result, v *core.Verdict)
 	if st == nil || st.w == nil {
 		return
 	}
+	prefix := "C13/"
+	if c.P("sequential", 0) == 1 {
+		// nothing overlapped in this run: no race can be the cause
+		prefix = "C13/sequential/"
+	}
 	bad := func(class, format string, args ...interface{}) {
-		v.Violations = append(v.Violations, core.Violation{Class: "C13/" + class, Detail: fmt.Sprintf(format, args...)})
+		v.Violations = append(v.Violations, core.Violation{Class: prefix + class, Detail: fmt.Sprintf(format, args...)})
 	}
 	hs := env.History()
 	for _, h := range hs {
@@ -620,5 +653,5 @@ func (c13) Check(c *core.Case, env *core.Env, res zzsim.Result, v *core.Verdict)
 	}
 	ov := overlapping(hs)
 	env.ProbeN("overlapping-op-pairs", ov)
-	v.Nontrivial = ov > 0 && v.Stats.Switches > 0
+	v.Nontrivial = (ov > 0 || c.P("sequential", 0) == 1) && v.Stats.Switches > 0
 }
